@@ -248,6 +248,8 @@ def run(specs, n, seed, label):
                     exp = {"ok": exp}
             except Exception as e:     # noqa: BLE001 — the exception class is the observation
                 exp = {"err": type(e).__name__}
+                if isinstance(e, RecursionError) and sp.fuel:
+                    exp = {"err": "fuel"}      # unbounded recursion: Python gives up by its stack, the model by its fuel
                 if not sp.monadic:
                     exp = {"err-but-translated-as-pure": type(e).__name__}
             expected.append((sp.name, args, exp))
